@@ -362,6 +362,38 @@ func init() {
 		return int64(len(e.encodeRune(args[0])))
 	}
 
+	// strings.TrimSpace indexes a 256-entry table with the byte; summarised as
+	// TrimFunc(s, unicode.IsSpace), which is what it computes.
+	intrinsics["strings.TrimSpace"] = func(e *Exec, _ *frame, args []Value) Value {
+		s := args[0].(Str)
+		isSp := func(r Value) bool {
+			switch r := r.(type) {
+			case int64:
+				return isSpaceRune(rune(r))
+			case Sym:
+				return e.path.branch(e, e.isSpaceTerm(e.tt.Resize(r.t, 32, true)), "trimspace")
+			}
+			return false
+		}
+		lo := 0
+		for lo < s.Len() {
+			r, n := e.decodeRune(s, lo)
+			if !isSp(r) {
+				break
+			}
+			lo += n
+		}
+		hi := s.Len()
+		for hi > lo {
+			t := decodeLast(e, s.slice(lo, hi)).(Tuple)
+			if !isSp(t[0]) {
+				break
+			}
+			hi -= int(t[1].(int64))
+		}
+		return s.slice(lo, hi)
+	}
+
 	// ---- math ----
 	f1 := func(conc func(float64) float64, sym func(e *Exec, t *Term) *Term) intrinsicFn {
 		return func(e *Exec, _ *frame, args []Value) Value {
